@@ -13,6 +13,7 @@ use super::env::Change;
 use super::h_linear::Terms;
 use super::monitor;
 use super::shadow;
+use super::shadow::unroll;
 use crate::engine::propagation::Propagator;
 use crate::engine::variables::DomainId;
 use crate::engine::variables::Literal;
@@ -21,11 +22,11 @@ use crate::propagators::linear_not_equal::LinearNotEqualPropagator;
 use crate::propagators::ReifiedPropagator;
 
 fn domains(n: usize) {
-    let mut i = 1;
-    while i <= n {
-        shadow::init_any(i, 0);
-        i += 1;
-    }
+    unroll!(i in [1, 2, 3] {
+        if i <= n {
+            shadow::init_any(i, 0);
+        }
+    });
     // the reification literal's 0-1 variable: free, true or false
     shadow::init_within(n + 1, 0, 1, 0);
 }
@@ -84,7 +85,7 @@ fn reified_ne(n: usize, changes: &[Change], backtrack_first: bool) {
 }
 
 verif_harness! {
-    #[kani::unwind(10)]
+    #[kani::unwind(4)]
     fn reified_leq_2_change() {
         domains(2);
         let changes = [Change::any(3)];
@@ -93,7 +94,7 @@ verif_harness! {
 }
 
 verif_harness! {
-    #[kani::unwind(10)]
+    #[kani::unwind(4)]
     fn reified_leq_2_backtrack() {
         // change (may cache an inconsistency in `notify`), propagate, backtrack (the real
         // `synchronise` clears the cache), second change, propagate.
@@ -104,10 +105,30 @@ verif_harness! {
 }
 
 verif_harness! {
-    #[kani::unwind(10)]
+    #[kani::unwind(4)]
     fn reified_ne_2_changes() {
         domains(2);
         let changes = [Change::any(3), Change::any(3)];
         reified_ne(2, &changes, false);
+    }
+}
+
+verif_harness! {
+    #[kani::unwind(4)]
+    fn reified_leq_1_change() {
+        // r -> x1 <= c: the smallest instance with every mechanism of the wrapper (cached
+        // inconsistency in notify, reification literal appended to reasons and conflicts)
+        domains(1);
+        let changes = [Change::any(2)];
+        reified_leq(1, &changes, false);
+    }
+}
+
+verif_harness! {
+    #[kani::unwind(4)]
+    fn reified_leq_1_backtrack() {
+        domains(1);
+        let changes = [Change::any(2), Change::any(2)];
+        reified_leq(1, &changes, true);
     }
 }
